@@ -40,6 +40,43 @@ META = {
              "evaluated by the checker's own integer evaluator: value = 10 coin // 2^era, non-increasing, zero from era 30 on, "
              "sum = 2,099,999,986,350,000 = MAX_SASHIMI = the validator's limit = docs/params.md.",
         note=TRUST + "The evaluator handles assignments, if/return and integer operators only; any other construct in get_block_subsidy gives ANALYSIS-ERROR, not a verdict."),
+    "C06": dict(
+        technique="codec extraction (reader/writer field sequences) + commitment-coverage table; raw-read who-may-call scan; guard matching",
+        text="Claims one necessary clause of the property, not the per-bit behaviour: every leaf of a block's wire format is covered by a "
+             "commitment mechanism (summary fields = scrypt pre-image; evidence compared field-complete by __eq__; transaction list an "
+             "operand of the blake2 evidence hash and of the merkle root; version bytes and type tags strictly checked) and every decoder "
+             "read goes through the truncation-checked safe_read. Breaking any of these makes some bit of a valid block malleable.",
+        note=TRUST + "NOT decided: the actual single-bit flips and truncations of real blocks (a runtime quantification), hash preimage / collision resistance."),
+    "C07": dict(
+        technique="codec extraction and reader/writer mirror comparison; tag-table bijection; id-provenance (byte-span) rule; canonical-VLQ guard rule",
+        text="Decides for all 26 Serializable classes that reader and writer are mirror images field by field (primitive, width, byte order, "
+             "attribute flow through the constructor), every primitive is injective, dispatch tables are bijections onto the concrete "
+             "subclasses with unknown tags raising, list helpers mirror each other, constructor ranges equal codec ranges, every cached id is "
+             "sha256d of exactly the consumed span (transaction) / header span (block), the only id suppliers are provenance-checked, and the "
+             "variable-length integer decoder re-encodes and compares (genuine defect D1, repaired by a fix: commit).",
+        note=TRUST + "Nothing is encoded or decoded. Lenient version / reserved bytes are accepted only at 4 listed wire-message sites (not consensus objects)."),
+    "C08": dict(
+        technique="SQL schema reader + event summaries of writer tuples and reader reconstruction, compared column by column; key-multiplicity rule",
+        text="Decides that every leaf field of a block is written to exactly one column and read back from that column into the same "
+             "constructor parameter (4 tables, INSERT arity, NULL<->zero transforms paired, list positions by enumerate()/sorted), that stored "
+             "ids are the canonical ids, blocks come back ordered by height and are re-added from the empty state, one BEGIN..COMMIT per "
+             "flush under the store's lock, and that the schema's keys can represent forks sharing a transaction — where the tree has "
+             "genuine defect D2 (known finding).",
+        note=TRUST + "Assumption A1 (in evidence): transaction_locator is read without ORDER BY; SQLite's scan order is not decided statically."),
+    "C17": dict(
+        technique="guard matching; duplication-idiom scan with positive control; sibling skeleton agreement of the two builders",
+        text="Claims only the structural clauses: the header commitment is checked against the root over the whole ordered id list on every "
+             "accepting path; no hash input concatenates an element with itself and no level is padded by repeating an element (the "
+             "CVE-2012-2459 construction); root builder and proof-tree builder share the recursion skeleton and pair order.",
+        note=TRUST + "NOT decided: that the root changes under every list edit, and that every inclusion proof reproduces the root — both are "
+                     "properties of hash values (deciding them needs evaluation or a solver, a different technique family)."),
+    "C18": dict(
+        technique="path-condition matching of the checkpoint guard; folded table / parameters / extracted wire signature compared with recorded network data",
+        text="Decides the checkpoint guard's shape and reach (reject iff height <= horizon, height checkpointed and id != checkpoint; validation "
+             "skipped only under the horizon, after the comparison; horizon = highest checkpoint), and that the checkpoint table (all 327 "
+             "recorded entries), scrypt/blake2/sha256d parameters, the wire format of the 14 consensus classes incl. the VLQ encoder, and the "
+             "genesis literal have not drifted from /verif/reference (recorded network data, the oracle the property names).",
+        note=TRUST + "NOT decided: that recorded real blocks pass scrypt-based validation (needs running scrypt = execution)."),
 }
 
 NOT_YET = "not claimed yet: rule module not implemented in this revision (see DESIGN.md section 5 for the planned rules)"
